@@ -392,3 +392,155 @@ Example real_model_generations_do_not_mix :
                 [0;0;0; 1;1; 0;0;0; 2;2;2; 1; 3;3;3] in
   running GSF 1 s = 1 /\ enabled s 3 = false.
 Proof. vm_compute. split; reflexivity. Qed.
+
+(* (k) LockedCalls on STRIPED locks (seeded change C07-9): no map entry per key; the key is hashed onto one of
+   [n] locks, the caller holds that lock while its function runs.  In the LTS: the LockedCalls map is indexed
+   by [stripe n k] instead of [k] (lookup, registration, deletion); everything else is the real code.  The
+   hash is a section variable: the refutation needs nothing but two different keys with the same image
+   (pigeonhole: any n+1 keys contain such a pair - the check holds 300 keys at once). *)
+Section Striped.
+  Variable stripe : Z -> Z.
+
+  Definition striped_step (s : state) (t : nat) : option state :=
+    match nth_error (threads s) t with
+    | Some th =>
+      match cur_op th with
+      | Some o =>
+        let k := stripe (okey o) in
+        let T := S (now s) in
+        let put th' := upd_nth (threads s) t th' in
+        match ogrp o, tpc th with
+        | GLC, PCalled =>
+          match calls s GLC k with
+          | Some c =>
+            Some (mkState T (calls s) (heap s) (nextc s) (resources s) (ncreated s)
+                   (put (mkThread (PWait c) (tscript th) (topi th) (tinv th) (now s) (truns th) (tres th))))
+          | None =>
+            let c := nextc s in
+            Some (mkState T (set_calls (calls s) GLC k (Some c))
+                   (fupd (heap s) c (mkCall GLC (okey o) (t, topi th) (tinv th) None false None))
+                   (S c) (resources s) (ncreated s)
+                   (put (mkThread (PLead c) (tscript th) (topi th) (tinv th) (now s) (truns th) (tres th))))
+          end
+        | GLC, PFnDone c r =>
+          Some (mkState T (set_calls (calls s) GLC k None) (heap s) (nextc s) (resources s) (ncreated s)
+                 (put (set_pc th (PDeleted c r))))
+        | _, _ => step s t
+        end
+      | None => None
+      end
+    | None => None
+    end.
+
+  Definition striped_enabled (s : state) (t : nat) : bool :=
+    match striped_step s t with Some _ => true | None => false end.
+End Striped.
+
+Definition mod256 (k : Z) : Z := (k mod 256)%Z.
+Definition st_scripts : list (list op) := [[mkOp GLC 1 101 0]; [mkOp GLC 257 201 0]].
+(* thread 0 is inside its function under key 1; thread 1 calls with key 257 *)
+Definition st_sched : list nat := [0;0;0; 1;1].
+
+(* [keys_independent_blocked_only_behind_own_key] fails: thread 1 cannot move although nothing runs under its
+   key; the object it waits for belongs to ANOTHER key *)
+Theorem striped_locks_block_another_key_refuted :
+  exists scripts sched t th o c,
+    let s := run (striped_step mod256) (init scripts) sched in
+    nth_error (threads s) t = Some th /\ cur_op th = Some o /\
+    striped_enabled mod256 s t = false /\ running (ogrp o) (okey o) s = 0 /\
+    tpc th = PWait c /\ ckey (heap s c) <> okey o.
+Proof.
+  exists st_scripts, st_sched, 1. eexists. eexists. eexists. vm_compute.
+  split; [reflexivity|]. split; [reflexivity|]. split; [reflexivity|]. split; [reflexivity|].
+  split; [reflexivity|]. discriminate.
+Qed.
+
+(* with an injective "hash" the variant is the real LockedCalls on these keys; and the real model on the same
+   schedule: thread 1 is inside its own function *)
+Example striped_identity_is_harmless :
+  let s := run (striped_step (fun k => k)) (init st_scripts) (st_sched ++ [1]) in
+  running GLC 1 s = 1 /\ running GLC 257 s = 1.
+Proof. vm_compute. split; reflexivity. Qed.
+
+Example real_model_other_key_runs :
+  let s := exec st_scripts (st_sched ++ [1]) in running GLC 1 s = 1 /\ running GLC 257 s = 1.
+Proof. vm_compute. split; reflexivity. Qed.
+
+(* (l) LockedCalls with ONE condition variable for all keys and Signal() at the end of a call (seeded change
+   C07-6): callers of a busy key park on the shared sync.Cond (a FIFO); a finishing call wakes the OLDEST parked
+   caller, which re-checks ITS key and parks again (at the tail) if that key is still busy - the wake-up is
+   consumed.  Extra state next to the LTS state: the FIFO of parked threads and the set of woken ones. *)
+Record cstate := mkC { cs : state; cparked : list nat; cwoken : list nat }.
+
+Definition cond_step (x : cstate) (t : nat) : option cstate :=
+  let s := cs x in
+  match nth_error (threads s) t with
+  | Some th =>
+    match cur_op th with
+    | Some o =>
+      let T := S (now s) in
+      let put th' := upd_nth (threads s) t th' in
+      match ogrp o, tpc th with
+      | GLC, PCalled =>
+        match calls s GLC (okey o) with
+        | Some c =>      (* for lg.running(key) { lg.cond.Wait() } *)
+          Some (mkC (mkState T (calls s) (heap s) (nextc s) (resources s) (ncreated s)
+                       (put (mkThread (PWait c) (tscript th) (topi th) (tinv th) (now s) (truns th) (tres th))))
+                    (cparked x ++ [t]) (cwoken x))
+        | None => match step s t with Some s' => Some (mkC s' (cparked x) (cwoken x)) | None => None end
+        end
+      | GLC, PWait _ =>  (* parked: moves only when signalled, then re-checks *)
+        if existsb (Nat.eqb t) (cwoken x) then
+          Some (mkC (mkState T (calls s) (heap s) (nextc s) (resources s) (ncreated s) (put (set_pc th PCalled)))
+                    (cparked x) (filter (fun u => negb (Nat.eqb t u)) (cwoken x)))
+        else None
+      | GLC, PDeleted _ _ =>  (* finish(): the key is gone from the set; cond.Signal() *)
+        match step s t with
+        | Some s' =>
+          match cparked x with
+          | w :: rest => Some (mkC s' rest (w :: cwoken x))
+          | [] => Some (mkC s' [] (cwoken x))
+          end
+        | None => None
+        end
+      | _, _ => match step s t with Some s' => Some (mkC s' (cparked x) (cwoken x)) | None => None end
+      end
+    | None => None
+    end
+  | None => None
+  end.
+
+Definition cond_enabled (x : cstate) (t : nat) : bool :=
+  match cond_step x t with Some _ => true | None => false end.
+
+(* a1 runs under key 1, b1 under key 2; b2 parks, then a2 parks; a1 returns: its one wake-up goes to b2, which
+   finds key 2 busy and parks again *)
+Definition cd_scripts : list (list op) :=
+  [[mkOp GLC 1 101 0]; [mkOp GLC 2 201 0]; [mkOp GLC 2 301 0]; [mkOp GLC 1 401 0]].
+Definition cd_sched : list nat := [0;0;0; 1;1;1; 2;2; 3;3; 0;0;0; 2;2].
+
+(* thread 3 (a2) cannot move although no call for its key is registered or running and no wake-up is pending:
+   it now waits for the call on key 2 *)
+Theorem shared_cond_signal_strands_waiter_refuted :
+  exists scripts sched t th o,
+    let x := run cond_step (mkC (init scripts) [] []) sched in
+    nth_error (threads (cs x)) t = Some th /\ cur_op th = Some o /\
+    cond_enabled x t = false /\ cwoken x = [] /\
+    calls (cs x) (ogrp o) (okey o) = None /\ running (ogrp o) (okey o) (cs x) = 0 /\
+    running GLC 2 (cs x) = 1.
+Proof.
+  exists cd_scripts, cd_sched, 3. eexists. eexists. vm_compute.
+  repeat (split; [reflexivity|]). reflexivity.
+Qed.
+
+(* the other parking order is harmless in the variant (a2 is the oldest waiter) ... *)
+Example shared_cond_signal_lucky_order :
+  let x := run cond_step (mkC (init cd_scripts) [] []) [0;0;0; 1;1;1; 3;3; 2;2; 0;0;0; 3;3;3] in
+  running GLC 1 (cs x) = 1.
+Proof. vm_compute. reflexivity. Qed.
+
+(* ... and the real model on the stranding schedule: a2 is woken by a1's WaitGroup and runs *)
+Example real_model_waiter_of_free_key_runs :
+  let s := exec cd_scripts [0;0;0; 1;1;1; 2;2; 3;3; 0;0;0; 3;3;3] in
+  running GLC 1 s = 1 /\ running GLC 2 s = 1 /\ enabled s 2 = false.
+Proof. vm_compute. repeat split; reflexivity. Qed.
